@@ -3,6 +3,7 @@
 package pc19
 
 import (
+	"errors"
 	"fmt"
 	"strings"
 	"testing"
@@ -240,7 +241,7 @@ func c19Prop(r *ev.Rec) func(c c19Case) ev.Outcome {
 		run := func(s string) error {
 			hist, err := RunScheduled(c.Spec, c.Left, c.Right, []byte(s))
 			if err != nil {
-				return fmt.Errorf("schedule %s: %v\n  history: %s", s, err, fmtHist(hist))
+				return fmt.Errorf("schedule %s: %w\n  history: %s", s, err, fmtHist(hist))
 			}
 			buffered, wms, err := checkHistory(c.Spec, hist)
 			if err != nil {
@@ -270,6 +271,10 @@ func c19Prop(r *ev.Rec) func(c c19Case) ev.Outcome {
 		}
 		r.AddClass("schedules_run", int64(n))
 		if firstErr != nil {
+			if errors.Is(firstErr, ErrRigTimeout) {
+				// a wall-clock limit says nothing about consistency: inconclusive (counted), never a violation
+				return ev.Outcome{Discard: true, Classes: []string{"rig_timeout_inconclusive"}}
+			}
 			return ev.Outcome{Err: firstErr}
 		}
 		// dedupe class labels
